@@ -877,4 +877,4 @@ def s8(ctx):
                 ctx.bad('S8', key, 'a search loop without a counting bound is reachable %s: on a stream-supplied composite modulus the loop need '
                         'not terminate and its hash input grows without bound' % (
                             'before the primality of p was tested' if not prime_p else 'before the form p = qk + 1 was tested'), f)
-    ctx.floor('S8', n, 8)
+    ctx.floor('S8', n, 4)
